@@ -3,7 +3,7 @@ import ast
 
 from .. import heap as H, rx, strlang, cfg, paths, normalize
 from ..core import AnalysisError, norm, walk_no_nested
-from . import C10
+from . import C10, common
 
 META = {
     'design_ref': 'DESIGN.md §5 C05',
@@ -243,7 +243,7 @@ def r4_validate_before_commit(rep, src):
             lvar, seq = st.target.id, it
         else:
             return None
-        if 'splitlines' not in norm(seq):
+        if not common.is_line_split(src, seq):
             return None
         accepted = {}
         for first in (True, False):
@@ -558,3 +558,6 @@ def check(src, rep, tier):
     rep.guard('C05.R4', r4_validate_before_commit, src)
     rep.guard('C05.R5', r5_setitem_routing, src)
     rep.guard('C05.R6', r6_delitem_routing, src)
+    rep.need('C05.R7', 1)
+    rep.guard('C05.R7', common.check_line_primitive, src, 'C05.R7', ['_deb822_repro.parsing:Deb822ParagraphElement.set_field_from_raw_string'],
+              'a new value that contains such a character inside a line is refused (its "line" has no trailing newline) although the parser reads it')
